@@ -115,6 +115,21 @@ Theorem C11_form_decode_keeps_type : forall data fs fs',
 Proof. exact form_decode_keeps_type_lemma. Qed.
 Print Assumptions C11_form_decode_keeps_type.
 
+(* The content of a struct destination after the call, failed or not ([form_unmarshal_struct_st],
+   which the correspondence run compares with the real destination after an error): it agrees
+   with the decoder on the outcome and on the value, and even after an error it is a value of
+   the destination's type - a failed decode leaves fields and array elements written before the
+   failing one, never anything of another kind, width or length. *)
+Theorem C11_form_state_agrees : forall data fs,
+  form_unmarshal data (TStruct fs) = omap RStruct (collapse (form_unmarshal_struct_st data fs)).
+Proof. exact form_unmarshal_st_agrees. Qed.
+Print Assumptions C11_form_state_agrees.
+
+Theorem C11_form_failed_decode_keeps_type : forall data fs,
+  fields_rel fs (fst (form_unmarshal_struct_st data fs)).
+Proof. exact form_failed_decode_keeps_type_lemma. Qed.
+Print Assumptions C11_form_failed_decode_keeps_type.
+
 Theorem C11_form_decode_array_length : forall elems vals es,
   set_array elems vals = Ok es -> length es = length elems.
 Proof. exact set_array_length. Qed.
